@@ -8,7 +8,7 @@ type Outcome struct {
 	NonTrivial  bool
 	Probes      map[string]int
 	Fingerprint string
-	Faults      [4]int
+	Faults      [5]int
 	SimNs       int64
 	States      []uint64
 	Ops         int
@@ -70,7 +70,7 @@ func genGeneric(prop string, tweak func(g *genCtx), mix Mix) func(seed, run int6
 			tweak(g)
 		}
 		if g.ft.Catalog {
-			g.h.Cfg.ValMask = 0 // declared functions have fixed Go types
+			g.h.Cfg.ValMask, g.h.Cfg.AltMask = 0, 0 // declared functions have fixed Go types
 		}
 		// a few scopes and providers first so that later ops have something to use
 		warm := g.r.Range(2, 6)
@@ -103,6 +103,9 @@ func init() {
 			g.ft.FaultRate = []float64{0.1, 0.25, 0.4}[g.r.Intn(3)]
 			g.ft.FaultInv = 0.05
 			g.ft.PRetry = 0.6
+			if g.r.Intn(3) == 0 {
+				g.ft.Callbacks, g.ft.FaultCB = true, 0.15
+			}
 		}, defaultMix),
 		Eval: evalSimple("C07", func(c *Checked) bool { return c.Probes["retry_healed"] > 0 }),
 	})
@@ -115,6 +118,9 @@ func init() {
 			g.ft.PRetry = 0.5
 			g.ft.PAvail = 0.95
 			g.ft.PReenter = []float64{0, 0, 0.1}[g.r.Intn(3)]
+			if g.r.Intn(3) == 0 {
+				g.ft.Callbacks, g.ft.FaultCB = true, 0.15
+			}
 		}, Mix{Scope: 2, Provide: 8, Decorate: 3, Invoke: 12, VisStr: 0}),
 		Eval: evalSimple("C02", func(c *Checked) bool { return consumedOften(c) }),
 	})
@@ -187,6 +193,7 @@ func init() {
 		Gen: genGeneric("C01", func(g *genCtx) {
 			someFaults(g)
 			g.ft.PAvail = 0.95
+			g.ft.PReenter = []float64{0, 0, 0.08}[g.r.Intn(3)]
 			if g.ft.MaxScopes < 2 {
 				g.ft.MaxScopes = 2
 			}
@@ -254,6 +261,10 @@ func init() {
 			g.ft.NT = g.r.Range(2, 4)
 			g.ft.Names = []string{"n1", "n2"}
 			g.ft.Groups = []string{"g1", "g2"}
+			if g.r.P(0.3) {
+				g.ft.Names = append(g.ft.Names, "n1 ")
+				g.ft.Groups = append(g.ft.Groups, "g1 ")
+			}
 			g.ft.As = true
 			g.ft.Objects = true
 			g.ft.PDup = 0.4
@@ -267,6 +278,9 @@ func init() {
 		Gen: genGeneric("C10", func(g *genCtx) {
 			someFaults(g)
 			g.ft.Groups = []string{"g1", "g2"}[:g.r.Range(1, 2)]
+			if g.r.P(0.25) {
+				g.ft.Groups = append(g.ft.Groups, "g1 ") // differs from "g1" only in a blank
+			}
 			g.ft.Objects = true
 			g.ft.Flatten = true
 			g.ft.NT = g.r.Range(2, 4)
@@ -297,6 +311,9 @@ func init() {
 				g.ft.FaultRate, g.ft.PRetry = 0.15, 0.4
 			}
 			g.ft.Groups = []string{"g1", "g2"}[:g.r.Range(1, 2)]
+			if g.r.P(0.25) {
+				g.ft.Groups = append(g.ft.Groups, "g1 ") // differs from "g1" only in a blank
+			}
 			g.ft.Objects, g.ft.Soft = true, true
 			g.ft.GroupDecs = false
 			g.ft.NT = g.r.Range(2, 4)
@@ -358,6 +375,7 @@ func init() {
 		Gen: genGeneric("C20", func(g *genCtx) {
 			g.ft.FaultRate = []float64{0, 0.1, 0.3}[g.r.Intn(3)]
 			g.ft.Callbacks, g.ft.Slow = true, true
+			g.ft.FaultCB = []float64{0, 0, 0.1}[g.r.Intn(3)]
 			g.ft.PAvail = 0.95
 			if g.r.P(0.5) {
 				// declared functions: the callback Name can be checked
@@ -456,6 +474,7 @@ func init() {
 			g.ft.NamedSlice = g.r.P(0.3)
 			if g.r.P(0.5) {
 				g.ft.Catalog = true
+				g.ft.LocPC = true
 				g.ft.NT = 6
 				g.ft.Names, g.ft.Groups = []string{"n1", "n2"}, []string{"g1", "g2"}
 			}
